@@ -6,12 +6,12 @@ import json, os, sys
 HERE = os.path.dirname(os.path.dirname(os.path.abspath(__file__)))
 sys.path.insert(0, HERE)
 from rules.core import engine
-from rules.core.rules import guard_inventory, err_inventory, condition_inventory, mustpass_inventory, wiring_inventory, fns_in_files, owner_qual
+from rules.core.rules import guard_inventory, err_inventory, condition_inventory, mustpass_inventory, wiring_inventory, variant_map_inventory, fns_in_files, owner_qual
 from rules.core.inventory_rule import all_anchor_files
 from rules.core.panics import TABLES
 
 configs = sys.argv[1:] or ['A', 'B', 'C', 'D', 'P']
-gi, ei, ci, mi, wi = {}, {}, {}, {}, {}
+gi, ei, ci, mi, wi, vi = {}, {}, {}, {}, {}, {}
 gp, ep = os.path.join(TABLES, 'guard_inventory.json'), os.path.join(TABLES, 'err_inventory.json')
 cp_, mp_ = os.path.join(TABLES, 'condition_inventory.json'), os.path.join(TABLES, 'mustpass_inventory.json')
 
@@ -20,6 +20,9 @@ if os.path.exists(cp_):
     ci = json.load(open(cp_)); mi = json.load(open(mp_))
 if os.path.exists(wp_):
     wi = json.load(open(wp_))
+vp_ = os.path.join(TABLES, 'variant_map_inventory.json')
+if os.path.exists(vp_):
+    vi = json.load(open(vp_))
 for c in configs:
     P = engine.load_prog(c)
     files = all_anchor_files()
@@ -38,6 +41,9 @@ for c in configs:
     mi[c] = {k: {'file': owner_file.get(k, '?'), 'callees': v} for k, v in mm.items()}
     ww = wiring_inventory(P, files)
     wi[c] = {fl: {k: {'n': n, 'fns': wiring_inventory.hints[fl][k]} for k, n in d.items()} for fl, d in ww.items()}
+    vv = variant_map_inventory(P, files)
+    vi[c] = {fl: {k: {'n': n, 'fns': variant_map_inventory.hints[fl][k]} for k, n in d.items()} for fl, d in vv.items()}
+    print(c, 'variant maps', sum(len(v) for v in vi[c].values()))
     print(c, 'wirings', sum(len(v) for v in wi[c].values()))
     print(c, 'conditions', sum(len(v) for v in ci[c].values()), 'must-pass callees', sum(len(v['callees']) for v in mi[c].values()))
     print(c, 'guards', sum(x['n'] for v in gi[c].values() for x in v.values()), 'error constructions', sum(x['n'] for v in ei[c].values() for x in v.values()))
@@ -47,3 +53,4 @@ json.dump(ei, open(ep, 'w'), indent=1, sort_keys=True)
 json.dump(ci, open(cp_, 'w'), indent=1, sort_keys=True)
 json.dump(mi, open(mp_, 'w'), indent=1, sort_keys=True)
 json.dump(wi, open(wp_, 'w'), indent=1, sort_keys=True)
+json.dump(vi, open(vp_, 'w'), indent=1, sort_keys=True)
